@@ -1078,3 +1078,63 @@ Proof.
   intros Hx H. unfold size_expr in *. eapply sum_sizes_mono; [|exact H].
   apply Forall_forall. intros o _ m. apply size_op_mono. exact Hx.
 Qed.
+
+(* ================= the three embeddings: the length prefix is the emitted length ================= *)
+
+Theorem exprloc_prefix_exact dbg e uo base ex bs fx rest :
+  write_exprloc dbg e uo base ex = Ok (bs, fx) -> blen bs < 2 ^ 64 ->
+  exists p body,
+    bs = p ++ body /\
+    write_expr dbg e uo true (base + blen p) ex = Ok (body, fx) /\
+    rd_uleb (p ++ rest) = Some (blen body, rest) /\
+    exprloc_size dbg e uo ex = Ok (blen bs).
+Proof.
+  intros H Hlt. unfold write_exprloc in H.
+  apply bind_ok_inv in H. destruct H as [size [Hs H]].
+  apply bind_ok_inv in H. destruct H as [p [Hp H]].
+  apply bind_ok_inv in H. destruct H as [[body f] [Hw H]]. inversion H; subst. clear H.
+  rewrite blen_app in Hlt.
+  rewrite (expr_size_write _ _ _ _ _ _ _ _ Hw) in Hs by lia. inversion Hs; subst size. clear Hs.
+  exists p, body. split; [reflexivity|]. split; [exact Hw|]. split.
+  - eapply rd_uleb_written; [exact Hp|lia].
+  - unfold exprloc_size. rewrite (expr_size_write _ _ _ _ _ _ _ _ Hw) by lia. cbn [bind].
+    apply write_uleb128_len in Hp. rewrite uadd_ok by (rewrite <- Hp; lia). rewrite blen_app, Hp. reflexivity.
+Qed.
+
+Theorem loc_prefix_exact dbg e uo base ex bs fx rest :
+  write_loc_expression dbg e uo base ex = Ok (bs, fx) -> blen bs < 2 ^ 64 ->
+  exists p body,
+    bs = p ++ body /\
+    write_expr dbg e uo true (base + blen p) ex = Ok (body, fx) /\
+    (if e_version e <=? 4 then rd_fixed (e_be e) 2 (p ++ rest) = Some (blen body, rest) /\ blen body < 65536
+     else rd_uleb (p ++ rest) = Some (blen body, rest)).
+Proof.
+  intros H Hlt. unfold write_loc_expression in H.
+  apply bind_ok_inv in H. destruct H as [size [Hs H]].
+  apply bind_ok_inv in H. destruct H as [p [Hp H]].
+  apply bind_ok_inv in H. destruct H as [[body f] [Hw H]]. inversion H; subst. clear H.
+  rewrite blen_app in Hlt.
+  rewrite (expr_size_write _ _ _ _ _ _ _ _ Hw) in Hs by lia. inversion Hs; subst size. clear Hs.
+  exists p, body. split; [reflexivity|]. split; [exact Hw|].
+  destruct (e_version e <=? 4).
+  - split; [apply (rd_fixed_written (e_be e) (blen body) 2 p rest); [lia|lia|exact Hp]|].
+    unfold write_udata in Hp. change (2 =? 1) with false in Hp. change (2 =? 2) with true in Hp. cbv iota in Hp.
+    destruct (blen body <? two16) eqn:E; [unfold two16 in E; lia|discriminate].
+  - eapply rd_uleb_written; [exact Hp|lia].
+Qed.
+
+Theorem cfi_prefix_exact dbg e base ex bs fx rest :
+  write_cfi_expression dbg e base ex = Ok (bs, fx) -> blen bs < 2 ^ 64 ->
+  exists p body,
+    bs = p ++ body /\
+    write_expr dbg e None false (base + blen p) ex = Ok (body, fx) /\
+    rd_uleb (p ++ rest) = Some (blen body, rest).
+Proof.
+  intros H Hlt. unfold write_cfi_expression in H.
+  apply bind_ok_inv in H. destruct H as [size [Hs H]].
+  apply bind_ok_inv in H. destruct H as [p [Hp H]].
+  apply bind_ok_inv in H. destruct H as [[body f] [Hw H]]. inversion H; subst. clear H.
+  rewrite blen_app in Hlt.
+  rewrite (expr_size_write _ _ _ _ _ _ _ _ Hw) in Hs by lia. inversion Hs; subst size. clear Hs.
+  exists p, body. split; [reflexivity|]. split; [exact Hw|eapply rd_uleb_written; [exact Hp|lia]].
+Qed.
